@@ -838,7 +838,8 @@ var hostileTokens = map[string][]string{
 	"coreparser": {"/A#", "/A#zz", "/", "(", ")", "(a\\", "<", "<4", "<zz>", ">", "[", "]", "<<", ">>", "<< /A", "obj", "endobj", "stream", "stream\n", "endstream",
 		"R", "0 0 R", "-1 0 R", "99999999999 0 R", "1 99999999999 R", "xref", "trailer", "startxref", "1e999", "-", "+", ".", "1.2.3", "99999999999999999999",
 		"/Length -1", "/Length 99999999999", "true", "null", "%", "\\", "{", "}", "\x00"},
-	"cmap": {"<", ">", "<>", "<zz>", "<0>", "<00000000000>", "[", "]", "[<0041>", "<0041>]", "begincodespacerange", "endcodespacerange", "beginbfchar", "endbfchar",
+	"cmap": {"<00000000> <FFFFFFFF> <D83DDE00>", "<00000000> <FFFFFFFF> <00000000>", "<000000> <FFFFFF> <00410000>", "<0000> <FFFF> <FF00>", "<00> <FF> <D83DDE00>",
+		"<", ">", "<>", "<zz>", "<0>", "<00000000000>", "[", "]", "[<0041>", "<0041>]", "begincodespacerange", "endcodespacerange", "beginbfchar", "endbfchar",
 		"beginbfrange", "endbfrange", "99999999999 beginbfchar", "-1 beginbfrange", "<FFFF> <0000> <0041>", "<0000> <FFFF> <0041>", "<00000000> <FFFFFFFF> <0041>",
 		"<00000000> <FFFFFFFF> [<0041>]", "<0000> <FFFF> <D83DDE00>", "<00> <FF> <FFFFFFFFFFFFFFFF>", "<D800>", "<DC00>", "<D83D>", "usecmap", "\x00"},
 }
@@ -912,8 +913,8 @@ func genBytesCase(t *rapid.T) Case {
 			b = b[:pos]
 			desc = append(desc, fmt.Sprintf("truncate at %d", pos))
 		case "repeat":
-			k := rapid.SampledFrom([]int{10, 100, 2000, 20000}).Draw(t, "times")
-			h := rapid.SampledFrom([]string{"[", "<<", "(", "q ", "<ul><li>", "<div>", "<table><tr><td>", "BT ", "/A <<", "<b>"}).Draw(t, "rep")
+			k := rapid.SampledFrom([]int{10, 100, 2000, 20000, 20000, 300000}).Draw(t, "times")
+			h := rapid.SampledFrom([]string{"[", "<<", "(", "q ", "<ul><li>", "<div>", "<table><tr><td>", "BT ", "/A <<", "<b>", "[[]", "[<<>>", "<</A[]/B"}).Draw(t, "rep")
 			b = splice(b, pos, 0, strings.Repeat(h, k))
 			desc = append(desc, fmt.Sprintf("insert %q x %d at %d", h, k, pos))
 		}
